@@ -36,6 +36,8 @@ func showCli(f []string) string {
 		args = append(args, p)
 		if mode == "ofile" {
 			outFile = filepath.Join(dir, "out.sql")
+			// the output file already exists and holds older, longer content
+			os.WriteFile(outFile, []byte(strings.Repeat("-- stale output of an earlier run\n", 200)), 0o644)
 			args = append([]string{"-o", outFile}, args...)
 		}
 	case "files":
